@@ -249,12 +249,26 @@ def r2_model_reader(ctx, res):
 
 
 def _loop_constants(f, name):
-    """string constants a name ranges over when it is the variable of `for name in ('a', 'b', ...)`"""
+    """string constants a name ranges over when it is the variable of `for name in ('a', 'b', ...)` - the tuple / list may be
+    written in place or be a local list of constants, possibly extended by `.append('c')`"""
     out = []
+
+    def consts(seq):
+        return [e.value for e in seq.elts] if isinstance(seq, (ast.Tuple, ast.List)) and seq.elts \
+            and all(isinstance(e, ast.Constant) and isinstance(e.value, str) for e in seq.elts) else None
     for n in walk_no_nested(f.node):
-        if isinstance(n, (ast.For, ast.comprehension)) and isinstance(n.target, ast.Name) and n.target.id == name \
-                and isinstance(n.iter, (ast.Tuple, ast.List)) and n.iter.elts and all(isinstance(e, ast.Constant) and isinstance(e.value, str) for e in n.iter.elts):
-            out.extend(e.value for e in n.iter.elts)
+        if isinstance(n, (ast.For, ast.comprehension)) and isinstance(n.target, ast.Name) and n.target.id == name:
+            c = consts(n.iter)
+            if c is not None:
+                out.extend((x, None) for x in c)
+            elif isinstance(n.iter, ast.Name):
+                sites = binding_sites(f.node, n.iter.id)
+                if len(sites) == 1 and sites[0][0] == 'assign' and consts(sites[0][1]) is not None:
+                    out.extend((x, None) for x in consts(sites[0][1]))
+                    for m in walk_no_nested(f.node):
+                        if isinstance(m, ast.Call) and isinstance(m.func, ast.Attribute) and m.func.attr == 'append' and norm(m.func.value) == n.iter.id \
+                                and m.args and isinstance(m.args[0], ast.Constant) and isinstance(m.args[0].value, str):
+                            out.append((m.args[0].value, m))      # the key is in the list only where the append is reached
     return out
 
 
@@ -268,8 +282,8 @@ def _keys_read(f):
         elif isinstance(n, ast.Call) and isinstance(n.func, ast.Attribute) and n.func.attr == 'get' and n.args and isinstance(n.args[0], ast.Name):
             kn = n.args[0].id
         if kn is not None:
-            for k in _loop_constants(f, kn):
-                out.setdefault(k, []).append(n)
+            for k, where in _loop_constants(f, kn):
+                out.setdefault(k, []).append(where if where is not None else n)
         if isinstance(n, ast.Subscript) and isinstance(n.slice, ast.Constant) and isinstance(n.slice.value, str) and isinstance(n.ctx, ast.Load):
             out.setdefault(n.slice.value, []).append(n)
         if isinstance(n, ast.Call) and isinstance(n.func, ast.Attribute) and n.func.attr == 'get' and n.args \
@@ -443,6 +457,25 @@ def _safe_print_arg(ctx, f, arg, depth=0):
                             (isinstance(p.value, ast.Call) and norm(p.value.func) == 'quoteattr')
                             or (isinstance(p.value, ast.Name) and _is_items_key(v.args[0], p.value.id))))
                         for p in elt.values)
+                    kinds.add('quoteattr-quoted attributes' if ok else None)
+                elif isinstance(v, ast.Call) and norm(v.func).endswith('.join') and v.args and isinstance(v.args[0], ast.Name):
+                    # joined from a local list that only receives quoted `name="value"` pairs
+                    lst = v.args[0].id
+                    apps = [m for m in walk_no_nested(f.node) if isinstance(m, ast.Call) and isinstance(m.func, ast.Attribute)
+                            and m.func.attr in ('append', 'extend', 'insert') and norm(m.func.value) == lst]
+                    ok = bool(apps)
+                    for m in apps:
+                        a0 = m.args[-1] if m.args else None
+                        loopkeys = set()
+                        for p_ in parents(m):
+                            if isinstance(p_, ast.For) and isinstance(p_.target, ast.Tuple) and len(p_.target.elts) == 2 \
+                                    and isinstance(p_.target.elts[0], ast.Name) and isinstance(p_.iter, ast.Call) \
+                                    and isinstance(p_.iter.func, ast.Attribute) and p_.iter.func.attr == 'items':
+                                loopkeys.add(p_.target.elts[0].id)
+                        ok = ok and m.func.attr == 'append' and isinstance(a0, ast.JoinedStr) and all(
+                            isinstance(x, ast.Constant) or (isinstance(x, ast.FormattedValue) and (
+                                (isinstance(x.value, ast.Call) and norm(x.value.func) == 'quoteattr')
+                                or (isinstance(x.value, ast.Name) and x.value.id in loopkeys))) for x in a0.values)
                     kinds.add('quoteattr-quoted attributes' if ok else None)
                 elif isinstance(v, ast.Constant):
                     kinds.add('constant')
